@@ -136,6 +136,22 @@ def one(M, rec, rng, g, desc, kind, symvals):
         same(rec, "turn-rate scaling", kind, desc, base, r, ctx)
     except Exception as e:
         rec.violation(f"{PROP}:scaling:{kind}: the rescaled network cannot be stepped ({type(e).__name__})", dict(ctx, exception=repr(e)[:300]))
+    # (c') the same network OBJECTS: turn rates rescaled in place after the base step, stepped again
+    if kind == "numpy":
+        try:
+            NE, CE = drive.engines(M)
+            for n in desc["nodes"]:
+                if outs[n]:
+                    c = rng.choice((0.2, 2.5, 9.0))
+                    for l in outs[n]:
+                        b0.links[l["id"]].turnrate = b0.links[l["id"]].turnrate * c
+            b0.net.step(init_conditions=drive.np_init(b0, vals, "vec1"), engine=NE(), **drive.step_pars(pars))
+            r = drive.read_next(b0)
+            rec.count("relation_scaling_in_place")
+            same(rec, "turn-rate scaling in place on an already stepped network", kind, desc, base, r, ctx)
+        except Exception as e:
+            rec.violation(f"{PROP}:scaling in place:{kind}: the rescaled network cannot be stepped ({type(e).__name__})",
+                          dict(ctx, exception=repr(e)[:300]))
     # (d) share = beta / sum(beta), measured from inferred inflows
     T = pars["T"]
     for n in desc["nodes"]:
@@ -185,7 +201,7 @@ def finish(M, rec, write=True):
         rec.gate(rec.counters.get("renamings_with_clashing_names", 0) > 0, "no renaming with clashing names")
         rec.gate(rec.counters.get("base_step_failed", 0) <= 0.02 * max(1, rec.counters.get("relation_order", 0)), "too many base steps failed")
     return rec.finish(
-        ["relation_order", "relation_rename", "relation_scaling", "share_checks"],
+        ["relation_order", "relation_rename", "relation_scaling", "relation_scaling_in_place", "share_checks"],
         ["net_signatures"],
         rule="random valid networks; per network: 2 random permutations of node/link/origin/destination insertion with mixed API forms "
         "(add_link, add_links, add_path, implicit nodes), one renaming (unusual names; half of them clashing), one per-node turn-rate "
